@@ -1,64 +1,521 @@
 package sim
 
+// C04 — branch split indexes and hashes always describe the actual tree.
+// Engines: c04hist (indexes after any edit history), c04map (equality/hash agreement, split index vs. a
+// plain map through insertions and resizes, quartets), c04lin (concurrent clients of the locked hash map,
+// linearizability with porcupine).
+
 import (
 	"fmt"
+	"sort"
+	"strings"
+	"testing"
+	"time"
 
+	"github.com/anishathalye/porcupine"
+	"github.com/evolbioinfo/gotree/hashmap"
 	"github.com/evolbioinfo/gotree/tree"
+	"pgregory.net/rapid"
+	"sim/sched"
+	"verifhook"
 )
 
-// CheckIndexes: after ReinitIndexes, every branch's recorded split equals the split of the walk.
-func CheckIndexes(t *tree.Tree) string {
-	if err := t.ReinitIndexes(); err != nil {
-		return "" // duplicate tip names etc.: nothing promised
-	}
-	all := t.Tips()
-	ntips := len(all)
-	var below func(n, parent *tree.Node) []*tree.Node
-	below = func(n, parent *tree.Node) []*tree.Node {
-		if n.Nneigh() == 1 && parent != nil {
-			return []*tree.Node{n}
+func init() {
+	Register(&Engine{
+		Name: "c04hist", Prop: "C04",
+		Rule: "the histories of engine c03 (start tree × 1..30 editing steps); after every successful step ReinitIndexes() is called and, for every branch, the tip " +
+			"ranking, bitset, tip counts on both sides and topological depth are compared with the split obtained by cutting that branch in a walk of the live tree. " +
+			"Non-trivial: ≥ 2 successful structure-changing steps; distinct = distinct (start-shape class, sequence of successful operation kinds)",
+		Gen: func(rt *rapid.T, tier string) any {
+			return &HistCase{Start: genTreeText(rt, "t", 3, 12, false), Ops: genOps(rt, histOps, 1, 30)}
+		},
+		New:       func() any { return &HistCase{} },
+		Exec:      func(t *testing.T, c any, o *Outcome) { execHist(c.(*HistCase), o, true) },
+		Real:      []string{"Tree.ReinitIndexes / UpdateTipIndex / ClearBitSets / UpdateBitSet / ComputeEdgeHashes", "all public editing operations of package tree"},
+		Simulated: []string{"the operation history before re-indexing", "global math/rand seam seeded per step"},
+		Expected:  []string{"op-ok:prune", "op-ok:graft", "op-ok:insertidentical", "op-ok:nniapply", "op-ok:outgroup", "op-ok:rename", "op-ok:shuffle"},
+	})
+	Register(&Engine{
+		Name: "c04map", Prop: "C04",
+		Rule: "case = (2..4 trees on the same 4..11 taxa: SPR-related, then re-rooted / rotated / rooted on a branch in the text and re-rooted again through the API; " +
+			"all pairs of their branches; a 0..60-step history of AddEdgeCount / PutEdgeValue / Value / Edges on a split index of initial capacity 1..256 and load " +
+			"factor 0.1..1.5, every key presented through a branch object drawn from any of the trees; two quartets and all 24 presentations of each). Oracles: " +
+			"SameBipartition / HashEquals ⇔ same split (computed from the walk), same split ⇒ equal HashCode; index vs. a plain Go map keyed by the canonical split " +
+			"after every step; quartet Compare vs. pair-of-pairs equality, HashEquals ⇒ equal HashCode. Non-trivial: the index was resized and a lookup went " +
+			"through another presentation of the stored split; distinct = distinct (trees, capacity, load factor, history)",
+		Gen:  genC04Map,
+		New:  func() any { return &MapCase{} },
+		Exec: execC04Map,
+		Real: []string{"Edge.HashCode / HashEquals / SameBipartition", "tree.EdgeIndex", "hashmap.HashMap (Value, PutValue, rehash, KeyValues)", "Quartet.HashCode / HashEquals / Compare",
+			"Tree.ReinitIndexes", "Tree.Reroot / RerootOutGroup"},
+		Simulated: []string{"the insertion / lookup history", "initial capacity and load factor", "which presentation of a split is used as key"},
+		Expected:  []string{"resized", "lookup-through-other-presentation", "overwrite", "rooted-tree-in-pool", "equal-size-sides"},
+	})
+	Register(&Engine{
+		Name: "c04lin", Prop: "C04",
+		Rule: "case = (2..3 simulated clients × 3..7 operations PutValue / Value on one hashmap.HashMap of capacity 1..4 with colliding keys (≤ 3 keys, unique values), " +
+			"every statement of package hashmap a pre-emption point, schedule); the invoke/return history stamped with scheduler decision numbers is checked for " +
+			"linearizability against a sequential map with porcupine (timeout ⇒ inconclusive, never reported). Non-trivial: ≥ 1 context switch inside an operation; " +
+			"distinct = distinct scheduler trace hashes",
+		Gen:       genC04Lin,
+		New:       func() any { return &LinCase{} },
+		Exec:      execC04Lin,
+		Real:      []string{"hashmap.HashMap.Value / PutValue / rehash under sync.RWMutex"},
+		Simulated: []string{"choice of the runnable client at every statement of package hashmap and at every lock acquisition"},
+		Expected:  []string{"switch-inside-operation", "porcupine-ok", "rehash-during-history"},
+	})
+}
+
+// ---- c04map ---------------------------------------------------------------------------------------------
+
+type MapStep struct {
+	Op int `json:"op"` // 0 AddEdgeCount, 1 PutEdgeValue, 2 Value, 3 Edges(min,max)
+	E  int `json:"e"`  // branch of the pool (modulo)
+	C  int `json:"c"`
+	L  int `json:"l"`
+}
+
+type MapCase struct {
+	Trees  []string  `json:"trees"`
+	Reroot []int     `json:"reroot"` // per tree: 0 none, k>0: API re-rooting (odd: at inner node k/2, even: outgroup tip k/2)
+	Cap    uint64    `json:"cap"`
+	LF     float64   `json:"lf"`
+	Steps  []MapStep `json:"steps"`
+	Q      [2][4]int `json:"q"`
+}
+
+func genC04Map(rt *rapid.T, tier string) any {
+	r := rapidRnd{rt}
+	c := &MapCase{}
+	tx := taxa(rapid.IntRange(4, 11).Draw(rt, "ntax"), "t")
+	base := RandomTree(tx, r, rapid.IntRange(2, 3).Draw(rt, "maxdeg"), true)
+	for i := rapid.IntRange(2, 4).Draw(rt, "ntrees"); i > 0; i-- {
+		m := related(base, r, 2, 0)
+		if rapid.IntRange(0, 3).Draw(rt, "rootit") == 0 {
+			all := m.all()
+			m = RootOnBranch(m, all[1+r.Intn(len(all)-1)])
 		}
-		var out []*tree.Node
+		c.Trees = append(c.Trees, m.Newick())
+		c.Reroot = append(c.Reroot, rapid.IntRange(0, 20).Draw(rt, "reroot"))
+	}
+	c.Cap = uint64(rapid.SampledFrom([]int{1, 2, 3, 4, 5, 7, 8, 16, 64, 256}).Draw(rt, "cap"))
+	c.LF = float64(rapid.IntRange(1, 15).Draw(rt, "lf")) / 10
+	n := rapid.IntRange(0, 60).Draw(rt, "nsteps")
+	for i := 0; i < n; i++ {
+		c.Steps = append(c.Steps, MapStep{Op: rapid.IntRange(0, 3).Draw(rt, "op"), E: rapid.IntRange(0, 200).Draw(rt, "e"),
+			C: rapid.IntRange(0, 9).Draw(rt, "c"), L: rapid.IntRange(0, 15).Draw(rt, "l")})
+	}
+	for q := 0; q < 2; q++ {
+		p := rapid.Permutation([]int{0, 1, 2, 3, 4, 5}).Draw(rt, "qtaxa")
+		copy(c.Q[q][:], p[:4])
+	}
+	return c
+}
+
+// splitKeyOfEdge computes the canonical split of a branch from a walk of the live tree.
+func splitKeyOfEdge(e *tree.Edge, all []string) (key string, balanced bool) {
+	var below func(n, p *tree.Node) []string
+	below = func(n, p *tree.Node) []string {
+		if n.Nneigh() == 1 {
+			return []string{n.Name()}
+		}
+		var out []string
 		for _, m := range n.Neigh() {
-			if m != parent {
+			if m != p {
 				out = append(out, below(m, n)...)
 			}
 		}
 		return out
 	}
-	sorted := t.SortedTips()
-	for rank, tip := range sorted {
-		idx, err := t.TipIndex(tip.Name())
-		if err != nil || idx != rank {
-			return fmt.Sprintf("TipIndex(%s)=%d,%v want rank %d", tip.Name(), idx, err, rank)
+	side := below(e.Right(), e.Left())
+	set := map[string]bool{}
+	for _, s := range side {
+		set[s] = true
+	}
+	var ks []string
+	for _, s := range all {
+		if set[s] != set[all[0]] {
+			ks = append(ks, s)
 		}
 	}
-	for _, e := range t.Edges() {
-		b := below(e.Right(), e.Left())
-		in := map[*tree.Node]bool{}
-		for _, x := range b {
-			in[x] = true
+	return strings.Join(ks, "|"), 2*len(side) == len(all)
+}
+
+type poolEdge struct {
+	t    int
+	e    *tree.Edge
+	k    string
+	desc string
+}
+
+func execC04Map(t *testing.T, cc any, o *Outcome) {
+	c := cc.(*MapCase)
+	ok := guard(o, "c04map", func() {
+		var pool []poolEdge
+		var all []string
+		for i, text := range c.Trees {
+			tr := mustParse(text)
+			if i == 0 {
+				all = sortedTipNames(tr)
+			}
+			if k := c.Reroot[i]; k > 0 {
+				if k%2 == 1 {
+					if in := innerNodesOf(tr, 3, true); len(in) > 0 {
+						if err := tr.Reroot(in[(k/2)%len(in)]); err != nil {
+							panic("harness: reroot: " + err.Error())
+						}
+					}
+				} else {
+					_ = tr.RerootOutGroup(false, false, all[(k/2)%len(all)])
+				}
+			}
+			if tr.Rooted() {
+				o.Probe("rooted-tree-in-pool")
+			}
+			if err := tr.ReinitIndexes(); err != nil {
+				panic("harness: " + err.Error())
+			}
+			for _, e := range tr.Edges() {
+				k, bal := splitKeyOfEdge(e, all)
+				if bal {
+					o.Probe("equal-size-sides")
+				}
+				pool = append(pool, poolEdge{i, e, k, fmt.Sprintf("tree %d (%s), branch above %q", i, tr.Newick(), e.Right().Name())})
+			}
 		}
-		if e.NumTipsRight() != len(b) || e.NumTipsLeft() != ntips-len(b) {
-			return fmt.Sprintf("branch above %q: counts %d/%d, actual %d/%d", e.Right().Name(), e.NumTipsLeft(), e.NumTipsRight(), ntips-len(b), len(b))
+		// equality <=> same split; same split => same hash
+		for i := range pool {
+			for j := range pool {
+				same := pool[i].k == pool[j].k
+				if got := pool[i].e.SameBipartition(pool[j].e); got != same {
+					o.Fail("SameBipartition", "SameBipartition is %v, the splits are {%s} and {%s}\n  %s\n  %s", got, pool[i].k, pool[j].k, pool[i].desc, pool[j].desc)
+					return
+				}
+				if got := pool[i].e.HashEquals(hashmap.Hasher(pool[j].e)); got != same {
+					o.Fail("HashEquals", "HashEquals is %v, the splits are {%s} and {%s}\n  %s\n  %s", got, pool[i].k, pool[j].k, pool[i].desc, pool[j].desc)
+					return
+				}
+				if same && pool[i].e.HashCode() != pool[j].e.HashCode() {
+					o.Fail("equal-split-different-hash", "the same split {%s} hashes to %d and %d\n  %s\n  %s", pool[i].k, pool[i].e.HashCode(), pool[j].e.HashCode(), pool[i].desc, pool[j].desc)
+					return
+				}
+			}
 		}
-		d, err := e.TopoDepth()
-		want := len(b)
-		if ntips-len(b) < want {
-			want = ntips - len(b)
+		// the split index behaves like a plain map
+		type mv struct {
+			count int
+			len   float64
+			by    int
 		}
-		if err != nil || d != want {
-			return fmt.Sprintf("TopoDepth %d,%v want %d", d, err, want)
+		idx := tree.NewEdgeIndex(c.Cap, c.LF)
+		model := map[string]*mv{}
+		var hist []string
+		for si, s := range c.Steps {
+			p := pool[s.E%len(pool)]
+			o.Steps++
+			switch s.Op {
+			case 0:
+				hist = append(hist, fmt.Sprintf("AddEdgeCount({%s} via tree %d)", p.k, p.t))
+				if err := idx.AddEdgeCount(p.e); err != nil {
+					o.Fail("index:error", "AddEdgeCount fails: %v", err)
+					return
+				}
+				if m := model[p.k]; m != nil {
+					m.count++
+					m.len += p.e.Length()
+				} else {
+					model[p.k] = &mv{1, p.e.Length(), p.t}
+				}
+			case 1:
+				l := float64(s.L) / 4
+				hist = append(hist, fmt.Sprintf("PutEdgeValue({%s} via tree %d, %d, %v)", p.k, p.t, s.C, l))
+				if err := idx.PutEdgeValue(p.e, s.C, l); err != nil {
+					o.Fail("index:error", "PutEdgeValue fails: %v", err)
+					return
+				}
+				if model[p.k] != nil {
+					o.Probe("overwrite")
+				}
+				model[p.k] = &mv{s.C, l, p.t}
+			case 2:
+				hist = append(hist, fmt.Sprintf("Value({%s} via tree %d)", p.k, p.t))
+				v, found := idx.Value(p.e)
+				m := model[p.k]
+				if m != nil && m.by != p.t {
+					o.Probe("lookup-through-other-presentation")
+					if uint64(len(model)) > c.Cap {
+						o.Nontrivial = true
+					}
+				}
+				if found != (m != nil) || (found && (v.Count != m.count || v.Len != m.len)) {
+					o.Fail("index:value", "step %d: Value finds %v %+v, a plain map holds %+v\ncapacity %d load factor %v\nhistory:\n  %s", si, found, v, m, c.Cap, c.LF, strings.Join(hist, "\n  "))
+					return
+				}
+			case 3:
+				lo, hi := s.C%4, s.C%4+s.L%6
+				want := 0
+				for _, m := range model {
+					if (m.count > lo && m.count <= hi) || m.count == hi {
+						want++
+					}
+				}
+				hist = append(hist, fmt.Sprintf("Edges(%d,%d)", lo, hi))
+				if got := len(idx.Edges(lo, hi)); got != want {
+					o.Fail("index:edges-range", "step %d: Edges(%d,%d) returns %d entries, a plain map holds %d with count in ]%d,%d]\ncapacity %d load factor %v\nhistory:\n  %s", si, lo, hi, got, want, lo, hi, c.Cap, c.LF, strings.Join(hist, "\n  "))
+					return
+				}
+			}
+			if n := len(idx.Edges(-1, 1<<30)); n != len(model) {
+				o.Fail("index:size", "step %d: the index holds %d entries, a plain map %d\ncapacity %d load factor %v\nhistory:\n  %s", si, n, len(model), c.Cap, c.LF, strings.Join(hist, "\n  "))
+				return
+			}
 		}
-		if e.Bitset() == nil || int(e.Bitset().Len()) != ntips {
-			return "bitset width"
+		if float64(len(model)) >= float64(c.Cap)*c.LF {
+			o.Probe("resized")
 		}
-		for _, tip := range all {
-			idx, _ := t.TipIndex(tip.Name())
-			if e.Bitset().Test(uint(idx)) != in[tip] {
-				return fmt.Sprintf("branch above %q: bit of %s is %v", e.Right().Name(), tip.Name(), !in[tip])
+		// quartets: all 24 presentations of two quartets
+		var pres [2][]*tree.Quartet
+		for q := 0; q < 2; q++ {
+			permute4(c.Q[q], func(p [4]int) {
+				pres[q] = append(pres[q], &tree.Quartet{T1: uint(p[0]), T2: uint(p[1]), T3: uint(p[2]), T4: uint(p[3])})
+			})
+		}
+		allq := append(append([]*tree.Quartet{}, pres[0]...), pres[1]...)
+		for _, a := range allq {
+			for _, b := range allq {
+				want := quartetRelation(a, b)
+				if got := a.Compare(b); got != want {
+					o.Fail("quartet:compare", "Compare(%v, %v) = %d, want %d (0 same topology, 1 same taxa other topology, 2 different taxa)", *a, *b, got, want)
+					return
+				}
+				if a.HashEquals(hashmap.Hasher(b)) != (want != tree.QUARTET_DIFF) {
+					o.Fail("quartet:hashequals", "HashEquals(%v, %v) = %v, relation is %d", *a, *b, a.HashEquals(hashmap.Hasher(b)), want)
+					return
+				}
+				if a.HashEquals(hashmap.Hasher(b)) && a.HashCode() != b.HashCode() {
+					o.Fail("quartet:equal-different-hash", "quartets %v and %v are equal for the index but hash to %d and %d", *a, *b, a.HashCode(), b.HashCode())
+					return
+				}
+			}
+		}
+		// and the hash map keyed by quartets finds every presentation
+		hm := hashmap.NewHashMap(c.Cap, c.LF)
+		hm.PutValue(pres[0][0], "q0")
+		for _, b := range pres[0] {
+			if v, found := hm.Value(b); !found || v.(string) != "q0" {
+				o.Fail("quartet:index-lookup", "a quartet stored as %v is not found through its presentation %v (capacity %d)", *pres[0][0], *b, c.Cap)
+				return
+			}
+		}
+	})
+	_ = ok
+	o.Key = fmt.Sprintf("%x", hashString(fmt.Sprint(c.Trees, c.Reroot, c.Cap, c.LF, c.Steps)))
+}
+
+func hashString(s string) uint64 {
+	var h uint64 = 14695981039346656037
+	for i := 0; i < len(s); i++ {
+		h ^= uint64(s[i])
+		h *= 1099511628211
+	}
+	return h
+}
+
+func permute4(a [4]int, f func([4]int)) {
+	var rec func(k int)
+	rec = func(k int) {
+		if k == 4 {
+			f(a)
+			return
+		}
+		for i := k; i < 4; i++ {
+			a[k], a[i] = a[i], a[k]
+			rec(k + 1)
+			a[k], a[i] = a[i], a[k]
+		}
+	}
+	rec(0)
+}
+
+func quartetRelation(a, b *tree.Quartet) int {
+	pair := func(x, y uint) [2]uint {
+		if x > y {
+			x, y = y, x
+		}
+		return [2]uint{x, y}
+	}
+	sa := []uint{a.T1, a.T2, a.T3, a.T4}
+	sb := []uint{b.T1, b.T2, b.T3, b.T4}
+	sort.Slice(sa, func(i, j int) bool { return sa[i] < sa[j] })
+	sort.Slice(sb, func(i, j int) bool { return sb[i] < sb[j] })
+	for i := range sa {
+		if sa[i] != sb[i] {
+			return tree.QUARTET_DIFF
+		}
+	}
+	a1, a2, b1, b2 := pair(a.T1, a.T2), pair(a.T3, a.T4), pair(b.T1, b.T2), pair(b.T3, b.T4)
+	if (a1 == b1 && a2 == b2) || (a1 == b2 && a2 == b1) {
+		return tree.QUARTET_EQUALS
+	}
+	return tree.QUARTET_CONFLICT
+}
+
+// ---- c04lin ---------------------------------------------------------------------------------------------
+
+type LinOp struct {
+	Put bool `json:"put"`
+	K   int  `json:"k"`
+}
+
+type LinCase struct {
+	Clients [][]LinOp `json:"clients"`
+	Cap     uint64    `json:"cap"`
+	Sched   SchedCase `json:"sched"`
+}
+
+func genC04Lin(rt *rapid.T, tier string) any {
+	c := &LinCase{Cap: uint64(rapid.IntRange(1, 4).Draw(rt, "cap"))}
+	for i := rapid.IntRange(2, 3).Draw(rt, "nclients"); i > 0; i-- {
+		var ops []LinOp
+		for j := rapid.IntRange(3, 7).Draw(rt, "nops"); j > 0; j-- {
+			ops = append(ops, LinOp{Put: rapid.Bool().Draw(rt, "put"), K: rapid.IntRange(0, 2).Draw(rt, "key")})
+		}
+		c.Clients = append(c.Clients, ops)
+	}
+	c.Sched = genSched(rt)
+	c.Sched.SitePct = 100
+	return c
+}
+
+type linKey int
+
+func (k linKey) HashCode() uint64                 { return uint64(k) % 2 } // forced collisions
+func (k linKey) HashEquals(o hashmap.Hasher) bool { return k == o.(linKey) }
+
+type linIn struct {
+	put  bool
+	k, v int
+}
+type linOut struct {
+	v  int
+	ok bool
+}
+
+var linModel = porcupine.Model{
+	Init: func() interface{} { return [3]int{-1, -1, -1} },
+	Step: func(state, in, out interface{}) (bool, interface{}) {
+		m := state.([3]int)
+		i, o := in.(linIn), out.(linOut)
+		if i.put {
+			m[i.k] = i.v
+			return true, m
+		}
+		if m[i.k] < 0 {
+			return !o.ok, m
+		}
+		return o.ok && o.v == m[i.k], m
+	},
+	Equal: func(a, b interface{}) bool { return a.([3]int) == b.([3]int) },
+	DescribeOperation: func(in, out interface{}) string {
+		i, o := in.(linIn), out.(linOut)
+		if i.put {
+			return fmt.Sprintf("put(%d,%d)", i.k, i.v)
+		}
+		return fmt.Sprintf("get(%d)=%d,%v", i.k, o.v, o.ok)
+	},
+}
+
+// logical clock: only one goroutine runs at a time under the scheduler.
+type schedClock struct{ n int64 }
+
+//go:norace
+func (c *schedClock) tick() int64 { c.n++; return c.n }
+
+func execC04Lin(t *testing.T, cc any, o *Outcome) {
+	c := cc.(*LinCase)
+	var ops []porcupine.Operation
+	nclients := len(c.Clients)
+	nput := 0
+	res := sched.Run(t, c.Sched.Config(400000), func() {
+		hm := hashmap.NewHashMap(c.Cap, 0.75)
+		clk := &schedClock{}
+		done := make(chan []porcupine.Operation, nclients)
+		for ci := range c.Clients {
+			ci := ci
+			id := verifhook.Spawn("harness.client")
+			go func() {
+				verifhook.GoStart(id)
+				defer verifhook.GoEnd()
+				var mine []porcupine.Operation
+				for i, op := range c.Clients[ci] {
+					verifhook.Yield("client.invoke", "stmt")
+					call := clk.tick()
+					in := linIn{put: op.Put, k: op.K, v: ci*100 + i}
+					var out linOut
+					if op.Put {
+						hm.PutValue(linKey(op.K), in.v)
+					} else if v, ok := hm.Value(linKey(op.K)); ok {
+						out = linOut{v.(int), true}
+					}
+					ret := clk.tick()
+					mine = append(mine, porcupine.Operation{ClientId: ci, Input: in, Call: call, Output: out, Return: ret})
+					verifhook.Yield("client.return", "stmt")
+				}
+				verifhook.Yield("client.done", "send")
+				done <- mine
+			}()
+		}
+		for range c.Clients {
+			ops = append(ops, <-done...)
+			verifhook.Yield("harness.collect", "recv")
+		}
+	})
+	o.Steps = int64(res.Steps)
+	for _, cl := range c.Clients {
+		for _, op := range cl {
+			if op.Put {
+				nput++
 			}
 		}
 	}
-	return ""
+	what := "concurrent clients of hashmap.HashMap"
+	for _, p := range res.Panics {
+		o.Fail("panic:"+normPanic(p.Value, p.Stack), "%s: panic in client %s: %s\n%s", what, p.G, p.Value, trimStack(p.Stack))
+	}
+	if res.Deadlock && len(res.Panics) == 0 {
+		o.Fail("deadlock:hashmap", "%s: all clients blocked: %v", what, res.Blocked)
+	}
+	if res.Budget {
+		o.Fail("step-budget:hashmap", "%s: more than %d decisions", what, res.Steps)
+	}
+	if len(o.Viols) > 0 {
+		return
+	}
+	// a context switch inside an operation = two operations overlap in the recorded history
+	sort.Slice(ops, func(i, j int) bool { return ops[i].Call < ops[j].Call })
+	for i := 1; i < len(ops); i++ {
+		if ops[i].Call < ops[i-1].Return {
+			o.Probe("switch-inside-operation")
+			o.Nontrivial = true
+			break
+		}
+	}
+	if nput >= 2 && c.Cap <= 2 {
+		o.Probe("rehash-during-history")
+	}
+	o.Key = fmt.Sprintf("%016x", res.Hash)
+	r, info := porcupine.CheckOperationsVerbose(linModel, ops, 20*time.Second)
+	switch r {
+	case porcupine.Ok:
+		o.Probe("porcupine-ok")
+	case porcupine.Unknown:
+		o.Probe("porcupine-timeout-inconclusive")
+	case porcupine.Illegal:
+		var lines []string
+		for _, op := range ops {
+			lines = append(lines, fmt.Sprintf("client %d [%d,%d] %s", op.ClientId, op.Call, op.Return, linModel.DescribeOperation(op.Input, op.Output)))
+		}
+		_ = info
+		o.Fail("not-linearizable:hashmap", "%s: the recorded history has no sequential explanation\n  %s", what, strings.Join(lines, "\n  "))
+	}
 }
